@@ -30,6 +30,9 @@ type PathResult struct {
 	Funcs     map[*ssa.Function]bool
 	Uninit    []string
 	AllocElems int64
+	SchedPoints int
+	Preempts   int
+	RaceChecks int64
 	PanicMsg  string
 }
 
@@ -86,6 +89,8 @@ func (ex *Exec) resetPath(prefix []int32) {
 	ex.nQueries = 0
 	ex.unknownFeas = 0
 	ex.allocElems = 0
+	ex.schedPoints, ex.preemptsUsed, ex.raceChecks = 0, 0, 0
+	ex.sched, ex.noSched, ex.noTouch = nil, 0, 0
 	ex.sidecar = map[string]interface{}{}
 	ex.lastPanic = ""
 	ex.inInit = 0
@@ -178,6 +183,7 @@ func (ex *Exec) RunPath(entry *ssa.Function, entryName string, prefix []int32, p
 			res.Uninit = append(res.Uninit, p)
 		}
 		res.AllocElems = ex.allocElems
+		res.SchedPoints, res.Preempts, res.RaceChecks = ex.schedPoints, ex.preemptsUsed, ex.raceChecks
 	}()
 	// the harness argument: *verifrt.T (an empty struct cell; all methods are intrinsics)
 	var args []Value
@@ -191,8 +197,13 @@ func (ex *Exec) RunPath(entry *ssa.Function, entryName string, prefix []int32, p
 }
 
 func (ex *Exec) recordUncaughtPanic(gp *goPanic) {
-	// find a model of the path condition
-	id := ex.entryName + ".uncaught-panic"
+	ex.assertMsg(nil, ex.entryName+".uncaught-panic", gp.msg)
+}
+
+// assertMsg records an unconditional violation on the current path (if the path
+// condition is satisfiable), with a model of the draws.
+func (ex *Exec) assertMsg(_ *term.T, id string, msg string) {
+	gp := &goPanic{msg: msg}
 	rec := assertRec{ID: id, Status: "violated"}
 	ex.sol.Push()
 	r := ex.sol.Check()
